@@ -428,13 +428,18 @@ fn c08_ts_add_days(a: i64) {
             }
         }
     }
-    // sub_days is add_days of the negation
-    let s = x.sub_days(days);
-    match (s, x.add_days(-days)) {
+}
+
+//@ unit c08_ts_sub_days prop=C08 tier=thorough chunks=ints:-62135596800000000,0,221845392000000000,253402300799999999 mem=5 timeout=3600 bound="timestamp = the parameter x every f64: sub_days(d) is add_days(-d)"
+fn c08_ts_sub_days(a: i64) {
+    let days: f64 = kani::any();
+    let x = mk_ts(a);
+    match (x.sub_days(days), x.add_days(-days)) {
         (Ok(u), Ok(v)) => assert!(u == v),
         (Err(_), Err(_)) => {}
         _ => assert!(false),
     }
+    kani::cover!(days > 0.0);
 }
 
 // ------------------------------------------------------------------------------------- C12
